@@ -247,7 +247,8 @@ pub fn check(r: &mut Report, s: &Scn) {
 
 pub fn scenarios(thorough: bool) -> Vec<Scn> {
     let mut v = vec![];
-    let dts: Vec<u64> = if thorough { vec![1000, 2000, 5000, 10_000, 60_000, 300_000, 600_000] } else { vec![1000, 2000, 10_000, 60_000, 600_000] };
+    let dts: Vec<u64> = if thorough { vec![25, 26, 50, 100, 250, 500, 1000, 1500, 2000, 3000, 5000, 7500, 10_000, 30_000, 60_000, 120_000, 300_000, 599_999, 600_000] } else { vec![1000, 2000, 10_000, 60_000, 600_000] };
+    let origins: Vec<u32> = if thorough { vec![1, 1_000_000, 0x7fff_fffd, u32::MAX - 3] } else { vec![1_000_000, u32::MAX - 3] };
     // (1) every integer rate x interval x role route x ts origin (incl. wrap through 2^32) ; third segment at the same steady rate
     for rate in 1..=1500u64 {
         for &dt in &dts {
@@ -256,7 +257,7 @@ pub fn scenarios(thorough: bool) -> Vec<Scn> {
                 continue;
             }
             for route in 0..4 {
-                for ts0 in [1_000_000u32, u32::MAX - 3] {
+                for &ts0 in &origins {
                     for v6 in [false, true] {
                         // route 0: client SYN then client data; 1: server SYN+ACK then server data; 2: client data twice; 3: server data twice
                         let (from_a, f0) = match route {
